@@ -43,6 +43,14 @@ Fixpoint row_weight (bs : list Q) (ts : list (list combo)) : Q :=
   end.
 Definition ncombos (ts : list (list combo)) : nat := fold_right (fun t n => (length t + n)%nat) 0%nat ts.
 
+(* a supplied totals.rounding written with no more decimals than the currency: presenting it at the
+   currency's decimals (as the calculation does since the repair recorded in findings/C03.json) is
+   then no rounding at all *)
+Definition rounding_ok (c : nat) (o : option amount) : Prop :=
+  match o with Some r => (exp r <= c)%nat | None => True end.
+Definition rounding_okb (c : nat) (o : option amount) : bool :=
+  match o with Some r => Nat.leb (exp r) c | None => true end.
+
 Definition simple_doc (d : doc) : Prop :=
   d_currency_rule d = false /\ d_lines d <> [] /\
   Forall (simple_line (d_cur d)) (d_lines d) /\
@@ -50,7 +58,8 @@ Definition simple_doc (d : doc) : Prop :=
   Forall (fun l => Forall combo_ok (ln_taxes l)) (d_lines d) /\
   Forall (fun x => Forall combo_ok (dd_taxes x)) (d_discounts d) /\
   Forall (fun x => Forall combo_ok (dd_taxes x)) (d_charges d) /\
-  Forall (fun r => pct_ok (pr_pct r)) (d_advances d).
+  Forall (fun r => pct_ok (pr_pct r)) (d_advances d) /\
+  rounding_ok (d_c d) (d_rounding d).
 
 (* budgets, in units of eps = half a unit of the (c+2)-th decimal = 1/200 minor unit *)
 Definition b_drow (d : doc) : Q := e_sum (d_lines d) + 1.
@@ -97,7 +106,8 @@ Definition simple_docb (d : doc) : bool :=
   forallb (fun l => forallb combo_okb (ln_taxes l)) (d_lines d) &&
   forallb (fun x => forallb combo_okb (dd_taxes x)) (d_discounts d) &&
   forallb (fun x => forallb combo_okb (dd_taxes x)) (d_charges d) &&
-  forallb (fun r => pct_okb (pr_pct r)) (d_advances d).
+  forallb (fun r => pct_okb (pr_pct r)) (d_advances d) &&
+  rounding_okb (d_c d) (d_rounding d).
 
 (* the two features outside the class whose rounding points are not the documented ones *)
 (* some price that enters the calculation is converted by an exchange rate *)
@@ -122,7 +132,8 @@ Definition simple_but_priceb (d : doc) : bool :=
   forallb (fun l => forallb combo_okb (ln_taxes l)) (d_lines d) &&
   forallb (fun x => forallb combo_okb (dd_taxes x)) (d_discounts d) &&
   forallb (fun x => forallb combo_okb (dd_taxes x)) (d_charges d) &&
-  forallb (fun r => pct_okb (pr_pct r)) (d_advances d).
+  forallb (fun r => pct_okb (pr_pct r)) (d_advances d) &&
+  rounding_okb (d_c d) (d_rounding d).
 
 (* the largest budget, as an integer *)
 Definition budget (d : doc) : Z := Qceiling (b_due d).
